@@ -57,9 +57,9 @@ func (c19) Rule() string {
 }
 
 var c19Queries = []string{"write-fasta", "write-phylip", "write-phylip-strict", "write-nexus", "write-clustal", "write-stockholm", "write-paml", "stats", "consensus", "entropy-pssm", "profile",
-	"distmatrix", "mldist", "pwalign", "longest-orf", "unalign", "transpose", "bootstrap", "conservation", "diffs", "mutlist", "string", "translate-copy", "identical"}
+	"distmatrix", "mldist", "pwalign", "longest-orf", "unalign", "transpose", "bootstrap", "conservation", "diffs", "mutlist", "string", "translate-copy", "identical", "ref-sites", "split"}
 var c19Copies = []string{"clone", "clone-seqbag", "sub-align", "select-sites", "seq-clone"}
-var c19Mutations = []string{"set-char", "replace-char", "revcomp", "to-lower", "to-upper", "mask", "replace", "mutate", "write-through-seq-clone"}
+var c19Mutations = []string{"revcomp-some", "diff-with-first", "set-char", "replace-char", "revcomp", "to-lower", "to-upper", "mask", "replace", "mutate", "write-through-seq-clone"}
 
 func (c19) Gen(rs uint64, tier string, race bool) interface{} {
 	r := NewRand(rs)
@@ -297,6 +297,37 @@ func (c19) Run(ctx *Ctx, ci interface{}) (o Outcome) {
 				t.bag.GetSequenceById(op.I % n)
 				_ = t.bag.GetSequenceIdByName(c.Aln.Names[0])
 			}
+		case "ref-sites":
+			isQuery = true
+			if !isAl || n == 0 || L == 0 {
+				applied = false
+				break
+			}
+			nm, _ := al.GetSequenceNameById(op.I % n)
+			al.RefSites(nm, []int{0, op.J % L})
+			al.InversePositions([]int{op.J % L})
+			al.InverseCoordinates(op.J%L, 1)
+			for _, s := range al.Sequences() {
+				_ = s.NumGapsOpenning()
+			}
+		case "split":
+			isQuery = true
+			if !isAl || n == 0 || L < 2 {
+				applied = false
+				break
+			}
+			ps := align.NewPartitionSet(L)
+			ps.AddRange("p1", "M", 0, L/2-1+L%2, 1)
+			ps.AddRange("p2", "M", L/2+L%2, L-1, 1)
+			if ps.CheckSites() == nil {
+				if parts, err := al.Split(ps); err == nil {
+					for _, pa := range parts {
+						if pa != nil && pa.NbSequences() > 0 && pa.Length() > 0 {
+							pa.SetSequenceChar(0, 0, '#')
+						}
+					}
+				}
+			}
 		case "identical":
 			isQuery = true
 			u := pool[op.U%len(pool)]
@@ -441,6 +472,21 @@ func (c19) Run(ctx *Ctx, ci interface{}) (o Outcome) {
 			s, _ := t.bag.Sequence(op.I % n)
 			produced = &poolObj{what: fmt.Sprintf("clone of sequence %d of #%d", op.I%n, ti), seq: s.Clone(), owns: true, parent: ti}
 		// ---------------- mutations ----------------
+		case "revcomp-some":
+			isMutation = true
+			if n == 0 || t.bag.Alphabet() != align.NUCLEOTIDS {
+				applied = false
+				break
+			}
+			nm, _ := t.bag.GetSequenceNameById(op.I % n)
+			t.bag.ReverseComplementSequences(nm)
+		case "diff-with-first":
+			isMutation = true
+			if !isAl || n < 2 {
+				applied = false
+				break
+			}
+			al.DiffWithFirst()
 		case "set-char":
 			isMutation = true
 			if n == 0 {
